@@ -1428,6 +1428,17 @@ impl PeerConnection {
             None
         };
 
+        // A changed fingerprint after transport start is refused (see below). Refuse it
+        // here, before the description is applied and the signaling state moves, so the
+        // rejected call leaves the connection untouched.
+        if self.inner.dtls_transport.lock().is_some()
+            && *self.inner.remote_dtls_fingerprint.lock() != remote_dtls_fingerprint
+        {
+            return Err(RtcError::InvalidState(
+                "changing remote DTLS fingerprint after transport start is not supported".into(),
+            ));
+        }
+
         let previous_remote = self.inner.remote_description.lock().clone();
         let media_parameters_changed = previous_remote.as_ref().is_none_or(|previous| {
             previous.session.connection != desc.session.connection
